@@ -10,6 +10,7 @@
 //!   fwd c2s|s2c <i> <idx> | raw c2s|s2c <i> <hex>
 //!   csend <i> <payload> <chan> <mode> | cdisc <i> | cdiscnow <i> | cget <i>
 //!   ssend <i> <payload> <chan> <mode> | sdisc <i> | sdiscnow <i> | sdrop <i> | sget <i>
+//!   recli <i> <cfg>     a new client behind the relay of peer <i> (same address from the server's point of view)
 
 use std::collections::HashMap;
 use std::net::{SocketAddr, UdpSocket};
@@ -154,6 +155,18 @@ impl Machine for EpMachine {
                 // the client binds 0.0.0.0:port; datagrams arrive from 127.0.0.1:port
                 let ca = SocketAddr::new("127.0.0.1".parse().unwrap(), ca.port());
                 self.peers.insert(i, Peer { relay, client: Some(c), client_addr: Some(ca), c2s: vec![], s2c: vec![], c2s_seen: 0, s2c_seen: 0 });
+                format!("ok{}", self.report())
+            }
+            "recli" => {
+                // a new client behind the relay socket of an existing peer: the server sees the same address again
+                let i: usize = match t.num() { Some(x) => x, None => return bad() };
+                let cfg = match parse_cfg(&mut t) { Some(c) => c, None => return bad() };
+                let relay_addr = match self.peers.get(&i) { Some(p) => p.relay.local_addr().unwrap(), None => return bad() };
+                let c = client::Client::connect(relay_addr, client::Config { endpoint_config: cfg }).unwrap();
+                let ca = SocketAddr::new("127.0.0.1".parse().unwrap(), c.local_address().port());
+                let p = self.peers.get_mut(&i).unwrap();
+                p.client = Some(c);
+                p.client_addr = Some(ca);
                 format!("ok{}", self.report())
             }
             "sstep" | "sflush" => {
